@@ -8,7 +8,10 @@ errors by the grammar must be reported as such.
 functions) and nest (if/else, the three loops, match block): the faulty program F and its twin H, in which the
 faulty expression is replaced by a call of `mk()` that prints the marker line `@@`, behave identically until
 the position is evaluated for the first time; so F must end with a runtime error and stdout(F) must be exactly
-stdout(H) cut before the first marker."""
+stdout(H) cut before the first marker.
+(c) faults that depend on a runtime value, at a site that is evaluated several times and sees good operands first
+(loop over operands, a function called with good then bad arguments, operands taken from the records): the run
+must stop, with a runtime error, exactly at the first bad evaluation."""
 import re
 from framework import Check, Case
 from jqlib import run_case, simple_run, RunRes
@@ -117,6 +120,8 @@ FAULTS = {
     "printf-verb": "printf(\"%d\", 1)", "printf-verb-late": "printf(\"zz %s %d\", \"a\", 1)", "printf-dangling": "printf(\"zz%\")", "printf-missing": "printf(\"%s\")", "printf-kind": "printf(\"%f\", \"x\")", "printf-nofmt": "printf(5)",
     "dollar-name": "$nope", "escape": "\"\\q\"", "store-function": "(qf = printf)", "index-before-start": "[1, 2][-9]",
     "depth": "inf(0)", "fill": "(match (1) { 1 => { qa = []\n qa[2000000] = 1 } })",
+    "match-literal-vs-array": "(match ([1, 2]) { 0 => 1, q => 2 })", "match-literal-vs-object": "(match ({a: 1}) { \"a\" => 1, [x] => 2, q => 3 })",
+    "match-literal-vs-nested": "(match ([[1]]) { [7] => 1, q => 2 })", "match-bool-vs-array": "(match ([]) { true => 1, q => 2 })",
     "tilde-number": "(1 ~ 5)", "object-index": "({a: 1}[[1]])", "array-key-store": "(match (1) { 1 => { qa = []\n qa[\"k\"] = 1 } })",
 }
 # ---- faults that are statements (position "stmt" only)
@@ -126,13 +131,136 @@ STMT_FAULTS = {
     "div0-compound": "qd = 1\n qd /= 0", "nested-store": "qs = 5\n qs.a.b = 1", "bool-index-store": "qs = true\n qs[0] = 1",
 }
 
+# ------------------------------------------------------------------ (c) the same site evaluated several times, faulty only later
+# A fault whose presence depends on a runtime value: the site first sees good operands, then a bad one.
+# (kind, statement using the operand variable r, good operand source texts, bad operand, output of the site per good operand, JSON-able)
+LATER_SITES = [
+    ("regex-value", "x = \"abc\" ~ r", ["/b/", "/x/", "/^a/"], "/(/", "", False),
+    ("regex-value-neg", "x = \"abc\" !~ r", ["/b/", "/c$/"], "/[/", "", False),
+    ("regex-value-in-call", "x = lab(\"abc\" ~ r)", ["/b/", "/zz/"], "/a(/", None, False),
+    ("regex-string", "x = \"abc\" ~ r", ["\"b\"", "\"c$\"", "\"x\""], "\"(\"", "", True),
+    ("regex-string-neg", "x = \"abc\" !~ r", ["\"b\"", "\"^a\""], "\"[\"", "", True),
+    ("regex-mixed", "x = \"abc\" ~ r", ["/b/", "\"c\""], "/)/", "", False),
+    ("regex-mixed2", "x = \"abc\" ~ r", ["\"b\"", "/c/"], "\"a{2,1}\"", "", False),
+    ("tilde-operand-kind", "x = \"a\" ~ r", ["\"a\"", "/a/"], "5", "", False),
+    ("divisor", "x = 10 / r", ["2", "5", "0.5"], "0", "", True),
+    ("modulus", "x = 10 % r", ["3", "4"], "0", "", True),
+    ("divisor-string", "x = 10 / r", ["\"2\"", "4"], "\"zero\"", "", True),
+    ("method-callee", "x = r.length()", ["\"ab\"", "[1, 2]", "{}"], "5", "", True),
+    ("compare-left", "x = r < 2", ["1", "3", "\"a\"", "null"], "[1]", "", True),
+    ("compare-right", "x = 2 >= r", ["\"a\"", "null", "true"], "{}", "", True),
+    ("equality", "x = r == 1", ["1", "\"1\"", "null"], "[]", "", True),
+    ("forin-iterable", "for (q in r) { n++ }", ["[1]", "\"ab\"", "{}"], "5", "", True),
+    ("forin-null", "for (q, w in r) { n++ }", ["[1, 2]", "{}"], "null", "", True),
+    ("member-store-base", "r.k = 1", ["{}", "{a: 1}"], "5", "", True),
+    ("member-incr-base", "r.k++", ["{}", "{k: 1}"], "\"s\"", "", True),
+    ("index-store-base", "r[0] = 1", ["[]", "[5, 6]"], "true", "", True),
+    ("printf-format", "printf(r, 1)", ["\"%v|\\n\"", "\"%f|\\n\"", "\"%3v|\\n\""], "\"%s|\\n\"", ["1|\n", "1|\n", "  1|\n"], False),
+    ("printf-format-verb", "printf(r, 1)", ["\"%v.\\n\"", "\"%%\\n\""], "\"%d\\n\"", ["1.\n", "%\n"], False),
+    ("printf-arg", "printf(\"%s|\\n\", r)", ["\"a\"", "\"b\""], "5", ["a|\n", "b|\n"], True),
+    ("printf-arg-f", "printf(\"%f|\\n\", r)", ["1", "2.5"], "\"x\"", ["1|\n", "2.5|\n"], True),
+    ("index", "x = [1, 2][r]", ["0", "1", "5", "-2"], "-9", "", True),
+    ("index-store", "arr = [1]\n arr[r] = 1", ["0", "3", "-1"], "2000000", "", True),
+    ("index-store-negative", "arr = [1, 2]\n arr[r] = 1", ["1", "-2"], "-3", "", True),
+    ("match-case-literal", "x = match (r) { 0 => \"zero\", [a, b] => \"pair\", q => \"other\" }", ["0", "5", "\"s\"", "null", "true"], "[2, 3]", "", True),
+    ("match-case-literal-object", "x = match (r) { [] => 0, \"k\" => 1, q => 2 }", ["\"k\"", "1", "[]"], "{}", "", True),
+    ("match-case-nested-literal", "x = match (r) { [1, 2] => 0, q => 2 }", ["[1, 2]", "[3, 4]", "7"], "[1, [2]]", "", True),
+    ("object-index", "x = {a: 1}[r]", ["\"a\"", "1", "\"zz\""], "[1]", "", True),
+    ("array-key-store", "arr = [1]\n arr[r] = 2", ["0", "1"], "\"k\"", "", True),
+]
+
+
+def _json_text(src):
+    """source text of an operand -> JSON text (only called for JSON-able operands)"""
+    t = src.replace("{a: 1}", "{\"a\": 1}").replace("{k: 1}", "{\"k\": 1}")
+    return t
+
+
+def later_fault_cases(rng, quick):
+    """yields (prog, inputs, expected_stdout, meta)"""
+    out = []
+    for kind, stmt, goods, bad, site_out, jsonable in LATER_SITES:
+        for variant in range(2 if quick else 6):
+            k = rng.randint(1, len(goods))
+            gs = rng.sample(goods, k) if variant else goods[:2]
+            if rng.random() < 0.3:
+                gs = gs + [rng.choice(gs)]                      # the same good operand twice
+            tail = [rng.choice(goods)] if rng.random() < 0.4 else []     # operands after the bad one never reach the site
+            vals = gs + [bad] + tail
+            ng = len(gs)
+
+            if site_out is None:
+                # the site prints its own result through lab()
+                outs = [{"/b/": "true\n", "/zz/": "false\n"}[g] for g in gs]
+            elif isinstance(site_out, list):
+                outs = [site_out[goods.index(g)] for g in gs]
+            else:
+                outs = [site_out] * ng
+            n = len(vals)
+            lit = ", ".join(vals)
+            mechs = []
+            # A1: for-in over a literal array of operands
+            mechs.append(("forin-array", PRE + "BEGIN { print \"start\"\n for (r in [%s]) { print \"it\"\n %s\n print \"ok\" }\n print \"done\" }\nEND { print \"Z\" }" % (lit, stmt),
+                          [], "start\n" + "".join("it\n" + o + "ok\n" for o in outs) + "it\n"))
+            # A2: index loop over a variable
+            mechs.append(("index-loop", PRE + "BEGIN { print \"start\"\n vals = [%s]\n for (i = 0; i < %d; i++) { r = vals[i]\n print \"it\", i\n %s\n print \"ok\" }\n print \"done\" }" % (lit, n, stmt),
+                          [], "start\n" + "".join("it %d\n" % i + o + "ok\n" for i, o in enumerate(outs)) + "it %d\n" % ng))
+            # A3: while loop, operand chosen by a match on the counter
+            arms = ", ".join("%d => (%s)" % (i + 1, v) for i, v in enumerate(vals))
+            mechs.append(("while-match", PRE + "BEGIN { print \"start\"\n c = 0\n while (c < %d) { c++\n r = match (c) { %s }\n print \"it\"\n %s\n print \"ok\" }\n print \"done\" }" % (n, arms, stmt),
+                          [], "start\n" + "".join("it\n" + o + "ok\n" for o in outs) + "it\n"))
+            # B1: a function called with good operands, then with the bad one
+            calls = "\n ".join("y = site(%s)\n print \"ok\", %d" % (v, i) for i, v in enumerate(vals))
+            mechs.append(("function-calls", PRE + "function site(r) { print \"in\"\n %s\n return 1 }\nBEGIN { print \"start\"\n %s\n print \"done\" }" % (stmt, calls),
+                          [], "start\n" + "".join("in\n" + o + "ok %d\n" % i for i, o in enumerate(outs)) + "in\n"))
+            # B2: the function called once per record with a good operand, then from END with the bad one
+            g0 = gs[0]
+            mechs.append(("function-records-then-end", PRE + "function site(r) { print \"in\"\n %s\n return 1 }\n{ y = site(%s)\n print \"rec\", $ }\nEND { print \"E1\"\n y = site(%s)\n print \"E2\" }" % (stmt, g0, bad),
+                          ["[1,2,3]"], "".join("in\n" + outs[0] + "rec %d\n" % i for i in (1, 2, 3)) + "E1\nin\n"))
+            # D: the operand selected per record by a match on the record
+            arms = ", ".join("%d => (%s)" % (i + 1, v) for i, v in enumerate(vals))
+            mechs.append(("record-match", PRE + "BEGIN { print \"B\" }\n{ print \"it\", $\n r = match ($) { %s }\n %s\n print \"ok\" }\nEND { print \"Z\" }" % (arms, stmt),
+                          ["[" + ",".join(str(i + 1) for i in range(n)) + "]"], "B\n" + "".join("it %d\n" % (i + 1) + o + "ok\n" for i, o in enumerate(outs)) + "it %d\n" % (ng + 1)))
+            if jsonable:
+                recs = [_json_text(v) for v in vals]
+                # C1: the operand is the record itself
+                for sep, name in (((",", "one-array")), (("\n", "jsonl"))):
+                    text = "[" + ",".join(recs) + "]" if name == "one-array" else "\n".join("[%s]" % r for r in recs)
+                    mechs.append(("record-operand-" + name, PRE + "BEGIN { print \"B\" }\n{ print \"it\"\n r = $\n %s\n print \"ok\" }\nEND { print \"Z\" }" % stmt,
+                                  [text], "B\n" + "".join("it\n" + o + "ok\n" for o in outs) + "it\n"))
+                # C2: the site is the rule's pattern (inside an array literal, which is always truthy)
+                if stmt.startswith("x = ") and "\n" not in stmt:
+                    expr = stmt[4:].replace(" r ", " $ ").replace("[r]", "[$]").replace("(r)", "($)").replace("r.", "$.")
+                    if expr.endswith(" r"):
+                        expr = expr[:-2] + " $"
+                    if expr.startswith("r "):
+                        expr = "$ " + expr[2:]
+                    if "$" in expr:
+                        mechs.append(("rule-pattern", PRE + "BEGIN { print \"B\" }\n{ print \"it\" }\n[%s] { print \"hit\" }\nEND { print \"Z\" }" % expr,
+                                      ["[" + ",".join(recs) + "]"], "B\n" + "".join("it\n" + o + "hit\n" for o in outs) + "it\n"))
+            if quick:
+                mechs = rng.sample(mechs, min(len(mechs), 5))
+            for mname, prog, inputs, exp in mechs:
+                out.append((prog, inputs, exp, {"role": "later-fault", "fault": kind, "position": mname, "operands": vals}))
+    return out
+
+
 INPUTS = [["[1,2,3]"], ["[2]\n[3]"], ['{"a":1}'], ["[5,6]", "[7]"]]
 
 # ---- syntax splices that are errors by the grammar wherever a statement may stand
 SYNTAX_STMTS = ["5 = 1", "\"a\" = 1", "x + 1 = 2", "true = 1", "null = 1", "@", "x @ y", "x ? y", "print print", ")", "x = = 1",
                 "x y", "x = (1", "if (x {", "}", "function g() { }", "BEGIN { }", "for (;;) { }", "while { }", "[1, 2 = 3", "{a: } = 1"]
 CTX_SYNTAX = [("return 1", "nofunc"), ("return", "nofunc"), ("if (true) { return 2 }", "nofunc"), ("break", "noloop"), ("continue", "noloop"),
-              ("if (true) { break }", "noloop"), ("x = match (1) { 1 => { continue } }", "noloop"), ("x = match (1) { 1 => { return 1 } }", "nofunc")]
+              ("if (true) { break }", "noloop"), ("x = match (1) { 1 => { continue } }", "noloop"), ("x = match (1) { 1 => { return 1 } }", "nofunc"),
+              # a loop's own header is not inside the loop
+              ("while (match (1) { 1 => { break }, q => true }) { print \"w\" }", "noloop"),
+              ("n = 0\n while (match (n) { 3 => { break }, q => true }) { n++\n print n }", "noloop"),
+              ("for (i = 0; match (i) { 1 => { break }, q => true }; i++) { print \"f\" }", "noloop"),
+              ("for (match (1) { 1 => { continue } }; false; i++) { print \"f\" }", "noloop"),
+              ("for (i = 0; i < 1; match (1) { 1 => { break } }) { i++ }", "noloop"),
+              ("for (v in match (1) { 1 => { break }, q => [1] }) { print v }", "noloop"),
+              ("for (k, v in match (1) { 1 => { continue } }) { print v }", "noloop"),
+              ("while (true && match (1) { 1 => { continue } }) { print \"w\" }", "noloop")]
 BAD_TOKENS = ["@", "?", "^", " & ", " | ", "`", "\\"]
 
 
@@ -150,7 +278,8 @@ class C11(Check):
             "errors; (b) 25 runtime fault kinds x 53 evaluated positions (operand slots, arguments, literal elements, indexes, "
             "conditions, every for clause, for-in iterable, match subject/body, return, rule pattern, selector) x 10 hosts (rule kinds, "
             "functions) x 10 nests (if/else, loops, match block), each paired with a twin whose fault is replaced by a marker-printing call: "
-            "outcome runtime and stdout = the twin's stdout cut before the first marker. non-trivial = output before the fault is "
+            "outcome runtime and stdout = the twin's stdout cut before the first marker; (c) 30 value-dependent faults at a site evaluated "
+            "several times, bad only on a later evaluation, delivered by 9 mechanisms (loops over operands, repeated calls, records). non-trivial = output before the fault is "
             "non-empty and a statement follows it")
 
     def project(self, r):
@@ -230,6 +359,10 @@ class C11(Check):
                     inputs = rng.choice([["[[1],[2]]"], ["[[3]]\n[[4]]"]])
                     t = add(prog, inputs, sels_h, {"role": "twin", "position": "selector"}, ("twin",), False)
                     add(prog, inputs, sels_f, {"role": "faulty", "position": "selector", "fault": fname, "twin": t}, ("faulty",))
+
+        # ------------------------------------------------------------ (c) faulty only on a later evaluation of the same site
+        for prog, inputs, exp, meta in later_fault_cases(rng, quick):
+            add(prog, inputs, [], dict(meta, expected_outcome="runtime", expected_stdout=exp), ("later-fault",))
 
         # ------------------------------------------------------------ (a) syntax errors
         def prefix_rules():
